@@ -166,15 +166,17 @@ PARSER_TRUSTED = ["participle is not modelled beyond: ordered first-match lexing
                   "Go's regexp (lexer patterns), strconv.Unquote beyond backslash-free printable ASCII, time.Parse/Format (replaced by a Gallina "
                   "RFC3339 implementation with a proved round trip) are not modelled; inputs outside printable ASCII are left to the robustness stream"]
 prop("C14", coq_deps=PARSER_DEPS,
-     theorems=['C14_lexer_rules_pinned', 'C14_grammar_tags_pinned', 'C14_to_ops_postfix', 'C14_tokens_parse_unparse_expr', 'C14_tokens_parse_unparse_check', 'C14_tokens_parse_unparse_rule', 'C14_tokens_parse_unparse_block', 'C14_tokens_parse_unparse_authorizer', 'C14_lex_render', 'C14_parse_unparse_fact', 'C14_parse_unparse_rule', 'C14_parse_unparse_check', 'C14_parse_unparse_policy', 'C14_parse_unparse_block', 'C14_parse_unparse_authorizer', 'C14_comparison_consumes_one', 'C14_rejects_chained_comparison_run', 'C14_rejects_double_negation', 'C14_variable_in_set', 'C14_variable_param_in_set', 'C14_unbound_parameter', 'C14_malformed_date', 'C14_malformed_hex', 'C14_bad_term_in_predicate', 'C14_bad_term_in_expression', 'C14_lex_total', 'C14_parse_fact_total', 'C14_parse_rule_total', 'C14_parse_check_total', 'C14_parse_policy_total', 'C14_parse_block_total', 'C14_parse_authorizer_total'],
+     theorems=['C14_lexer_rules_pinned', 'C14_grammar_tags_pinned', 'C14_to_ops_postfix', 'C14_tokens_parse_unparse_expr', 'C14_tokens_parse_unparse_check', 'C14_tokens_parse_unparse_rule', 'C14_tokens_parse_unparse_block', 'C14_tokens_parse_unparse_authorizer', 'C14_lex_render', 'C14_parse_unparse_fact', 'C14_parse_unparse_rule', 'C14_parse_unparse_check', 'C14_parse_unparse_policy', 'C14_parse_unparse_block', 'C14_parse_unparse_authorizer', 'C14_lex_render_any_layout', 'C14_lex_items_any_layout', 'C14_token_before_layout', 'C14_parse_unparse_fact_any_layout', 'C14_parse_unparse_rule_any_layout', 'C14_parse_unparse_check_any_layout', 'C14_parse_unparse_policy_any_layout', 'C14_parse_unparse_block_any_layout', 'C14_parse_unparse_authorizer_any_layout', 'C14_parser_options_pinned', 'C14_comparison_consumes_one', 'C14_rejects_chained_comparison_run', 'C14_rejects_double_negation', 'C14_variable_in_set', 'C14_variable_param_in_set', 'C14_unbound_parameter', 'C14_malformed_date', 'C14_malformed_hex', 'C14_bad_term_in_predicate', 'C14_bad_term_in_expression', 'C14_lex_total', 'C14_parse_fact_total', 'C14_parse_rule_total', 'C14_parse_check_total', 'C14_parse_policy_total', 'C14_parse_block_total', 'C14_parse_authorizer_total'],
      trusted=PARSER_TRUSTED,
-     assumptions=["round-trip theorems are for texts rendered from grammar trees with a separator of nothing / one space / one newline between "
-                  "tokens (lexable); other layouts (tabs, several blanks, comments) are covered by the correspondence run",
+     assumptions=["round-trip theorems are for texts rendered from grammar trees with ANY layout: every gap (before the first token, between "
+                  "tokens, after the last) is an arbitrary string of spaces, tabs, \\n and \\r; an EMPTY gap must satisfy the adjacency "
+                  "condition tok_ok (two tokens must not glue), and the gap after a comment starts with \\n; comments only where the grammar "
+                  "has them (leading comments of a rule / block / authorizer - C14_comments_only_leading, same on the Go parser)",
                   "'every parsed element can be added to a builder without panicking' is exercised by the harness, not proved (the builder "
                   "conversion of a successfully converted term is total by typing in the model)"],
      harness_timeout=900)
 prop("C15", coq_deps=PARSER_DEPS + ["PrintStableProofs.v", "TokenProofs.v", "SymbolsProofs.v", "WireProofs.v", "Token.v", "Wire.v", "Symbols.v", "DTerm.v", "Chain.v", "History.v"],
-     theorems=['C15_print_expr', 'C15_roundtrip', 'C15_roundtrip_from_grammar', 'C15_date_roundtrip', 'C15_civil_calendar', 'C15_layout_lexes', 'C15_block_layout_lexable', 'C15_print_total',
+     theorems=['C15_print_expr', 'C15_roundtrip', 'C15_roundtrip_from_grammar', 'C15_date_roundtrip', 'C15_civil_calendar', 'C15_layout_lexes', 'C15_block_layout_lexable', 'C15_layout_lexes_any_layout', 'C15_roundtrip_any_layout', 'C15_print_total',
                'C15_stable_under_serialization', 'C15_reload_prints_the_same', 'C15_any_block_position', 'C15_position_channel'],
      trusted=PARSER_TRUSTED + ["the printers are modelled over resolved values (S level); symbol resolution through the token's cumulative table is the "
                                "subject of C07 and is exercised here by printing blocks at every position of real tokens"],
